@@ -159,7 +159,7 @@ func watchdog(tier string) time.Duration {
 	if tier == "thorough" {
 		return 6 * time.Hour // generous: a firing watchdog is inconclusive, and the machine may be loaded
 	}
-	return 20 * time.Minute
+	return 45 * time.Minute
 }
 
 func parent(p *core.Prop) int {
